@@ -988,12 +988,14 @@ class Engine:
 
             # apply updates based on process times in self.front
             if full_step == math.inf:
-                # no processes ran, jump to next process
-                next_event = end_time
-                for path in self.front.keys():
-                    if self.front[path]['time'] < next_event:
-                        next_event = self.front[path]['time']
-                self.global_time = next_event
+                # no process has an event before end_time (all of them
+                # are quiet, or there are none): jump to end_time
+                self.global_time = end_time
+
+                # advance all quiet processes to current time
+                for quiet in quiet_paths:
+                    self.front[quiet]['time'] = self.global_time
+                    self.front[quiet]['update'] = {}
 
             elif self.global_time + full_step <= end_time:
                 # at least one process ran within the interval
@@ -1033,6 +1035,11 @@ class Engine:
             else:
                 # all processes have run past the interval
                 self.global_time = end_time
+
+                # advance all quiet processes to current time
+                for quiet in quiet_paths:
+                    self.front[quiet]['time'] = self.global_time
+                    self.front[quiet]['update'] = {}
 
             if force_complete and self.global_time == end_time:
                 force_complete = False
